@@ -192,7 +192,7 @@ func cliMOutcome(idx int, tagged, isNil bool, err error, ctx context.Context, no
 	}
 }
 
-var cliBadKinds4 = []string{"ig", "io", "ih", "ie", "ih0", "ih3", "ih5", "ihx"}
+var cliBadKinds4 = []string{"ig", "io", "ih", "ie", "ih0", "ih3", "ih5", "ihx", "ib0", "ib8"}
 var cliBadKinds6 = []string{"ig", "io", "ie"}
 
 func cliRunMulti(sc cliMScenario) cliMResult {
